@@ -1,5 +1,64 @@
-import Rtcm.Model.Names
-import Rtcm.Model.Socket
+import Rtcm.Model.Message
 import Rtcm.Gen.Tables
+/-
+  C14 — parsed messages are immutable.
+  In the model a message is a value; `Msg.setattr` is `__setattr__` after construction.  The content
+  of the property is (a) every constructed message has the immutable flag set — for every identity,
+  implemented or stub — and (b) with the flag set every assignment, whatever the name, is the
+  library's message error and leaves the whole state (hence payload, identity, attribute values,
+  string form and serialised bytes, which are functions of the state) unchanged.
+-/
 namespace Rtcm
+
+/-- every successfully constructed message is immutable (known types and unknown stubs alike) -/
+theorem C14_constructed_is_immutable (T : Tables) (p : Option Bytes) (l : Nat) (m : Msg)
+    (h : construct T p l = .ok m) : m.immutable = true := by
+  unfold construct at h
+  split at h
+  · simp at h
+  · split at h
+    · simp at h
+    · simp at h
+    · split at h
+      · injection h with h; rw [← h]
+      · split at h
+        · simp at h
+        · injection h with h; rw [← h]
+
+/-- one assignment attempt on an immutable message: message error, state unchanged -/
+theorem C14_setattr (m : Msg) (h : m.immutable = true) (name : Label) (v : Val) :
+    m.setattr name v = (m, .lib .message) := by
+  simp [Msg.setattr, h]
+
+/-- any sequence of attempted assignments -/
+def attempts (m : Msg) : List (Label × Val) → Msg × List (Outcome Unit)
+  | [] => (m, [])
+  | (n, v) :: rest =>
+    let r := m.setattr n v
+    let r' := attempts r.1 rest
+    (r'.1, r.2 :: r'.2)
+
+theorem C14_all_attempts_fail_and_state_unchanged (T : Tables) (p : Option Bytes) (l : Nat) (m : Msg)
+    (hc : construct T p l = .ok m) (ops : List (Label × Val)) :
+    (attempts m ops).1 = m ∧ ∀ r ∈ (attempts m ops).2, r = .lib .message := by
+  have him := C14_constructed_is_immutable T p l m hc
+  induction ops with
+  | nil => simp [attempts]
+  | cons o rest ih =>
+    obtain ⟨n, v⟩ := o
+    simp only [attempts, C14_setattr m him]
+    exact ⟨ih.1, by intro r hr; simp at hr; rcases hr with h | h; exact h; exact ih.2 r h⟩
+
+/-- consequently everything observable is unchanged: serialised bytes, identity, attributes, payload -/
+theorem C14_observables_unchanged (T : Tables) (p : Option Bytes) (l : Nat) (m : Msg)
+    (hc : construct T p l = .ok m) (ops : List (Label × Val)) :
+    let m' := (attempts m ops).1
+    m'.serialize T = m.serialize T ∧ m'.id = m.id ∧ m'.attrs = m.attrs ∧ m'.payload = m.payload := by
+  simp [(C14_all_attempts_fail_and_state_unchanged T p l m hc ops).1]
+
+/-- non-vacuity: a concrete 1005 message and a concrete unknown-type stub are constructed -/
+example : (construct Gen.tables (some [0x3e, 0xd0, 0, 3, 0, 0, 0, 0, 0, 0, 0, 0, 0, 0, 0, 0, 0, 0, 0]) 1).isOk = true := by
+  decide +kernel
+example : (construct Gen.tables (some [0xff, 0xf0, 1]) 1).isOk = true := by decide +kernel
+
 end Rtcm
